@@ -87,6 +87,16 @@ static inline void __verif_terminate(void) {
   __CPROVER_assume(0);
 }
 
+/* relational comparison of two pointers (same object in the source): decided on offsets, so that loop
+ * conditions like 'start + 8 <= end' constant-fold; no detour through integer addresses */
+#ifdef __CPROVER__
+#define __PCMP(a, op, b) (__CPROVER_POINTER_OBJECT((const void*)(a)) == __CPROVER_POINTER_OBJECT((const void*)(b)) \
+    ? ((long long)__CPROVER_POINTER_OFFSET((const void*)(a)) op (long long)__CPROVER_POINTER_OFFSET((const void*)(b))) \
+    : ((u64)(a) op (u64)(b)))
+#else
+#define __PCMP(a, op, b) ((u64)(a) op (u64)(b))
+#endif
+
 /* ---- memory */
 #ifdef __CPROVER__
 void free(void *);
@@ -123,9 +133,12 @@ void *memset(void *, int, size_t);
 #define __v_memset_c(d, c, n) ((void)memset((d), (c), (n)))
 
 /* ---- SSE4.2 CRC-32C (Castagnoli, reflected polynomial 0x82F63B78), bit-exact */
+#ifdef VERIF_EXACT_CRC
+#define __CRC_STEP(c) ((c) = ((c) >> 1) ^ (0x82F63B78u & (0u - ((c) & 1u))))
 static inline u32 __crc32c_byte(u32 crc, u8 b) {
   crc ^= b;
-  for (int k = 0; k < 8; k++) crc = (crc >> 1) ^ (0x82F63B78u & (0u - (crc & 1u)));
+  __CRC_STEP(crc); __CRC_STEP(crc); __CRC_STEP(crc); __CRC_STEP(crc);
+  __CRC_STEP(crc); __CRC_STEP(crc); __CRC_STEP(crc); __CRC_STEP(crc);
   return crc;
 }
 static inline u32 __crc32c_8(u32 crc, u8 v) { return __crc32c_byte(crc, v); }
@@ -133,14 +146,24 @@ static inline u32 __crc32c_16(u32 crc, u16 v) {
   crc = __crc32c_byte(crc, (u8)v); return __crc32c_byte(crc, (u8)(v >> 8));
 }
 static inline u32 __crc32c_32(u32 crc, u32 v) {
-  for (int k = 0; k < 4; k++) crc = __crc32c_byte(crc, (u8)(v >> (8 * k)));
-  return crc;
+  crc = __crc32c_byte(crc, (u8)v); crc = __crc32c_byte(crc, (u8)(v >> 8));
+  crc = __crc32c_byte(crc, (u8)(v >> 16)); return __crc32c_byte(crc, (u8)(v >> 24));
 }
 static inline u64 __crc32c_64(u64 crc, u64 v) {
-  u32 c = (u32)crc;
-  for (int k = 0; k < 8; k++) c = __crc32c_byte(c, (u8)(v >> (8 * k)));
-  return (u64)c;
+  u32 c = __crc32c_32((u32)crc, (u32)v);
+  return (u64)__crc32c_32(c, (u32)(v >> 32));
 }
+
+#else
+/* default: the crc32 intrinsics as a cheap deterministic mixing function that, like CRC-32C, is injective in the
+ * data operand for a fixed accumulator (XOR-heavy exact CRC makes SAT instances needlessly hard; what the table
+ * properties depend on is WHICH bytes are hashed, not the polynomial).  -DVERIF_EXACT_CRC selects the exact one. */
+static inline u32 __mix32(u32 crc, u32 v) { crc = (crc << 5) | (crc >> 27); return crc ^ v ^ 0x9E3779B9u; }
+static inline u32 __crc32c_8(u32 crc, u8 v) { return __mix32(crc, (u32)v | 0x100u); }
+static inline u32 __crc32c_16(u32 crc, u16 v) { return __mix32(crc, (u32)v | 0x20000u); }
+static inline u32 __crc32c_32(u32 crc, u32 v) { return __mix32(__mix32(crc, v), 0x4u); }
+static inline u64 __crc32c_64(u64 crc, u64 v) { return (u64)__mix32(__mix32(__mix32((u32)crc, (u32)v), (u32)(v >> 32)), 0x8u); }
+#endif
 
 /* ---- footprint monitor (C20): filled in by generated code when --footprint */
 void __fp_store(void *p);
